@@ -1,6 +1,7 @@
 SPECIFICATION Spec
 CONSTANTS
   Chars <- CharsThorough
+  UDigits = {"0", "2", "a", "F"}
   MaxLen = 6
 INVARIANT HornerOK
 INVARIANT SepOK
